@@ -27,7 +27,10 @@ T1MOD = {"?": 3, "C": 1, "N": 2, "Si": 2}      # T1 with one value changed
 
 PROBES_D = ["[C][nop][#C][nop]", "[C][#C]", "[N][=N][#N]", "[Si][=C][Branch1][C][O][F]", "[C][C][C][Ring1][Ring1]", "[N+1][=C][O].[Xe][F]",
             "[CH1][Branch1][C][Cl][#C]", "[S][=O][=O][=O]", "[C+1][#C]", "[O][=O][F]", "[Fe+10][=C][=C]",
-            "[C][=Branch1][C][=O][#N]", "[P][#P][Cl][Cl]"]
+            "[C][=Branch1][C][=O][#N]", "[P][#P][Cl][Cl]",
+            # two- and three-symbol indices with a non-zero high digit, long enough for the value to matter
+            "[C]" * 20 + "[Ring2][Ring1][C]", "[N][Branch2][Ring1][Ring1]" + "[C]" * 19 + "[O]",
+            "[C]" * 20 + "[Ring3][C][Ring1][Ring1][Branch3][C][C][P][N][O]"]
 PROBES_E = ["C#N", "c1ccccc1", "[Si](C)(C)(C)C", "O=S(=O)(O)O", "[NH4+]", "C(F)(F)(F)(F)F", "C=[C+]C", "[Fe+10]C",
             "O=s1cccc1", "Cp1(=O)cccc1", "c1ccc2[nH]ccc2c1"]
 CAP_KEYS = [("C", 0), ("N", 0), ("N", 1), ("Si", 0), ("O", 0), ("F", 0), ("Xe", 0), ("C", 1), ("S", 0), ("Cl", 0),
@@ -287,6 +290,42 @@ CONFIG_OPS = [
     op_preset("default"), op_preset("octet_rule"), op_preset("nope"), Op("mutate-preset", _op_mut_preset, "mutate"),
     Op("alphabet", _op_alpha, "config"), Op("mutate-alphabet", _op_mut_alpha, "mutate"),
 ]
+def _rejection_grid():
+    """every way a table can be illegal (documented list: missing '?', malformed key, negative or non-integer capacity),
+    at every kind of key ('?', a listed element, a charged key, an element only '?' covers elsewhere), with the offending
+    entry first and last in the dict (the validation loop must finish before anything is assigned)"""
+    base = [("?", 2), ("C", 4), ("N+1", 4), ("Ge", 3)]
+    ops = []
+    for bad_key, _ in base:
+        for bad in (-1, 2.5, "3", None):
+            for first in (True, False):
+                rest = [(k, v) for k, v in base if k != bad_key]
+                items = [(bad_key, bad)] + rest if first else rest + [(bad_key, bad)]
+                ops.append(_op_set_items(items, "%s=%r %s" % (bad_key, bad, "first" if first else "last")))
+    for key in ("C+", "+1", "C1", "c", "C+-1", "", "C +1", "C+1.0", "?+1", "C++", "Xx-1", "C+01", "C-0", "C+\u0661", "[C]", "C "):
+        for first in (True, False):
+            items = [(key, 1)] + base if first else base + [(key, 1)]
+            ops.append(_op_set_items(items, "key %r %s" % (key, "first" if first else "last")))
+    return ops
+
+
+def _op_set_items(items, label):
+    def f(ctx, model):
+        a = dict(items)
+        ctx["passed"] = a
+        try:
+            r = _SF.set_semantic_constraints(a)
+            obs = "ok" if r is None else "returned %r" % (r,)
+        except ValueError:
+            obs = "ValueError"
+        except Exception as e:
+            obs = type(e).__name__
+        return obs, model.set(dict(items))
+    return Op("set(illegal: %s)" % label, f, "config")
+
+
+REJECTION_GRID = _rejection_grid()
+
 TRANSLATE_OPS = [
     op_dec("[Si][=C][N+1][Ring1][Ring1]"), op_dec("[C][Xe][Foo]"), op_dec("[C][nop][#C][nop]"),
     op_dec("[C][C][C][Ring1][Ring1][Branch1][Ring1][C][Foo]"),          # fails with a ring queued and a branch open
@@ -296,6 +335,11 @@ TRANSLATE_OPS = [
     op_dec("[C@@Hexpl][Branch1_2][C][O]", compatible=True), op_dec("[CH1][#C][Fe+10]"),
     op_enc("c1ccccc1[Si]"), op_enc("C(F)(F)(F)(F)F"), op_enc("CN", attribute=True), op_enc("C(F)(F)(F)(F)F", strict=False),
     op_enc("[CH]1=[N+]C1"),
+    # irregular but accepted decoder input: a non-index symbol / nothing at all where an index symbol is read
+    op_dec("[C][C][C][Ring1][F]"), op_dec("[C][C][C][C][Ring2][Xe]"), op_dec("[C][C][Branch2][Ring1]"),
+    # the very strings the probes use, whose outcome differs between the menu's tables (a result remembered from an earlier
+    # call under another table must not be served)
+    op_enc("O=S(=O)(O)O"), op_dec("[S][=O][=O][=O]"),
 ]
 
 
@@ -500,8 +544,10 @@ def make_run(menu, use_probes, prop, check_config=True):
     return run
 
 
-def explore(menu, submit, total, depth, nchunk=48):
-    """level-synchronous BFS in the master; transitions of a level are evaluated by the pool"""
+def explore(menu, submit, total, depth, nchunk=48, n_ops=None):
+    """level-synchronous BFS in the master; transitions of a level are evaluated by the pool; only the first n_ops
+    operations of the menu are transitions of the search (the rest are used by fixed-history scopes)"""
+    n_ops = len(menu) if n_ops is None else n_ops
     seen = {}
     frontier = [()]
     # root state
@@ -511,7 +557,7 @@ def explore(menu, submit, total, depth, nchunk=48):
             seen[fp] = hist
     per_level = []
     for d in range(1, depth + 1):
-        trans = [h + (i,) for h in frontier for i in range(len(menu))]
+        trans = [h + (i,) for h in frontier for i in range(n_ops)]
         chunks = [trans[k::nchunk] for k in range(nchunk)]
         tasks = [("level-%d" % d, (c,)) for c in chunks if c]
         newf = []
